@@ -103,3 +103,18 @@ pub proof fn lemma_first_not_append_run(cls: spec_fn(u8) -> bool, s: Seq<u8>, t:
     lemma_first_not_step(cls, s + t, i, s.len() as int);
     lemma_first_not_props(cls, s + t, s.len() as int);
 }
+
+// quantifier-free summary of first_not, for use inside large function bodies
+pub proof fn lemma_first_not_bounds(cls: spec_fn(u8) -> bool, s: Seq<u8>, i: int)
+    requires 0 <= i <= s.len(),
+    ensures i <= first_not(cls, s, i) <= s.len(),
+        first_not(cls, s, i) < s.len() ==> !cls(s[first_not(cls, s, i)]),
+        i < s.len() && cls(s[i]) ==> first_not(cls, s, i) > i && first_not(cls, s, i) == first_not(cls, s, i + 1),
+{
+    lemma_first_not_props(cls, s, i);
+}
+
+// content facts about the value class, for contexts where the class definitions are hidden
+pub proof fn lemma_hval_not_crlf(b: u8)
+    ensures is_hval(b) ==> b != 0x0d && b != 0x0a && b != 0,
+{}
